@@ -143,8 +143,8 @@ def run(m: Model, r: Report, tier: str) -> None:
     r.check(len(dumps) == 1 and not kws, "R4", f"{fmt.qualname}#json-dumps",
             f"json.dumps is called with {kws}: the defaults guarantee a single ASCII line (indent adds newlines; ensure_ascii=False lets unencodable "
             "characters, e.g. lone surrogates, kill the writer thread)", loc=fmt.loc)
-    se = ast.unparse(emit.node)
-    r.check("if not data.endswith('\\n'):" in se and "data += '\\n'" in se and "self.file.write(data.encode())" in se, "R4", f"{emit.qualname}#terminator",
+    se = m.mtext(emit)
+    r.check("if not _L.endswith('\\n'):" in se and "_L += '\\n'" in se and "self.file.write(_L.encode())" in se, "R4", f"{emit.qualname}#terminator",
             "each record must be written as one newline-terminated line", loc=emit.loc)
     pfs = m.require_function(f"{LOG}.PenlogReader._parse_file_structure")
     r.check("self.file_mmap.readline()" in ast.unparse(pfs.node) and "self._record_offsets.append(self.file_mmap.tell())" in ast.unparse(pfs.node), "R4",
